@@ -509,6 +509,21 @@ fn gen_part(g: &mut Rng) -> String {
     }
 }
 fn gen_text(g: &mut Rng) -> String {
+    if g.chance(1, 60) {
+        // a version-like prefix followed by a label whose multi-byte characters straddle the usual cut-off
+        // lengths (what a diagnostics message might echo): every variant is invalid
+        let edge = *g.pick(&[8usize, 16, 20, 24, 32, 40, 48, 64, 100, 128, 255, 256]);
+        let mut s = format!("{}.{}.{}", gen_u32(g) % 200, gen_u32(g) % 10, gen_u32(g) % 10_000);
+        s.push('-');
+        while s.len() + 1 < edge.saturating_sub(g.usize(4)) {
+            s.push('a');
+        }
+        let wide = *g.pick(&['\u{e9}', '\u{436}', '\u{4e2d}', '\u{1f600}']);
+        for _ in 0..2 + g.usize(6) {
+            s.push(wide);
+        }
+        return s;
+    }
     if g.chance(1, 200) {
         // very long inputs
         return match g.below(4) {
